@@ -230,8 +230,9 @@ def replay(pid, payload, seed):
     if payload.get("engine") == "orderstress":
         out = eng_orderstress(Ctx(pid, "quick", seed, {"evaluations": 0, "distinct": set(), "samples": [], "streams": {}, "traces": 0}))
         return out[0] if out else None
-    if payload.get("engine") in ("topicstress", "deletestress", "pushstress"):
-        fn = {"topicstress": eng_topicstress, "deletestress": eng_deletestress, "pushstress": eng_pushstress}[payload["engine"]]
+    if payload.get("engine") in ("topicstress", "deletestress", "pushstress", "nsstress"):
+        fn = {"topicstress": eng_topicstress, "deletestress": eng_deletestress, "pushstress": eng_pushstress,
+              "nsstress": eng_nsstress}[payload["engine"]]
         out = fn(Ctx(pid, "quick", seed, {"evaluations": 0, "distinct": set(), "samples": [], "streams": {}, "traces": 0}))
         return out[0] if out else None
     if payload.get("engine") == "racestress":
@@ -663,6 +664,53 @@ def eng_topicstress(ctx):
     return []
 
 
+def eng_nsstress(ctx):
+    """Multi-thread runtime: tasks create, delete and look up topics and subscriptions over small pools of names at
+    the same time (library API).  Read afterwards: no call is left without an answer (C07); per name, successful
+    creates minus successful deletes is 0 or 1 and says whether the name exists (C10: linearizable per name); at
+    quiescence the topic and the manager list exactly the subscriptions that exist (C11); a final Publish per topic
+    gets ids no other topic issued and reaches every surviving subscription (C09, C01).  A stress search."""
+    ms = ctx.n(2000, 20000)
+    p = sh([HARNESS, "nsstress", str(ms), "8"], check=False, timeout=3000)
+    out = p.stdout or ""
+    m = re.search(r"NSSTRESS ops=(\d+) count_mismatch=(\d+) listing_mismatch=(\d+) not_delivered=(\d+) duplicate_ids=(\d+)", out)
+    h = re.search(r"NSSTRESS hung=1 phase=(\d+) ops=(\d+) in_flight\S*=(\[.*?\])", out)
+    st = ctx.stats
+    s = st["streams"].setdefault("nsstress", {"cases": 0})
+    pid = ctx.pid if hasattr(ctx, "pid") else "?"
+    if h:
+        s.update({"cases": int(h.group(2)), "hung": 1})
+        st["evaluations"] += int(h.group(2))
+        why = ("C07-pending: with topics and subscriptions being created, deleted and looked up concurrently (multi-thread "
+               "runtime) calls were left without an answer for ever after %s operations; in flight per kind (create topic x2, "
+               "delete topic, create subscription x2, delete subscription, get, list): %s" % (h.group(2), h.group(3)))
+        return [("violation", "nsstress: " + why,
+                 {"engine": "nsstress", "failing_input_found": True, "monitor": why, "signature": "monitor:C07-pending",
+                  "replay_cmd": ".cache/target/release/harness nsstress %d 8" % ms, "output": out[-2000:],
+                  "broken": "stress search on the implementation (multi-thread runtime)"})]
+    if not m:
+        return [("engine", "nsstress did not finish", {"output": out[-2000:], "signature": "engine:nsstress"})]
+    st["evaluations"] += int(m.group(1))
+    s.update({"cases": int(m.group(1)), "count_mismatch": int(m.group(2)), "listing_mismatch": int(m.group(3)),
+              "not_delivered": int(m.group(4)), "duplicate_ids": int(m.group(5))})
+    st["distinct"].add("nsstress")
+    bad = [(int(m.group(2)), "C10-not-linearizable: for %s name(s) the successful creates minus the successful deletes is not "
+                             "0 or 1, or does not say whether the name exists at the end (e.g. two racing deletes of one name "
+                             "both answered OK)" % m.group(2)),
+           (int(m.group(3)), "C11-listing: at quiescence %s listing(s) differ from the set of subscriptions that exist" % m.group(3)),
+           (int(m.group(4)), "C01-not-delivered: %s surviving subscription(s) did not receive the final Publish of their topic" % m.group(4)),
+           (int(m.group(5)), "C09-id-reused: %s message id(s) were issued by two topics" % m.group(5))]
+    hits = [w for n, w in bad if n]
+    if hits:
+        detail = "; ".join(l for l in out.splitlines() if "creates - deletes" in l or "lists" in l or "issued by" in l)[:600]
+        why = hits[0] + (" [" + detail + "]" if detail else "")
+        return [("violation", "nsstress: " + why,
+                 {"engine": "nsstress", "failing_input_found": True, "monitor": why, "signature": "monitor:" + why.split(":")[0],
+                  "replay_cmd": ".cache/target/release/harness nsstress %d 8" % ms, "output": out[-3000:],
+                  "broken": "stress search on the implementation (multi-thread runtime)"})]
+    return []
+
+
 def eng_deletestress(ctx):
     """Closed-loop publishers on one topic and a DeleteSubscription in their midst (current-thread runtime): the number
     of Publish calls that complete before the deletion returns is bounded by what was queued ahead of it."""
@@ -823,7 +871,7 @@ def eng_racing_namespace(ctx):
 
 
 reg("C10", [lambda ctx: eng_control_enum(ctx), eng_control_random(M.mon_namespace, {"CT", "CS"}, always=True), eng_names_echo,
-            eng_racing_namespace],
+            eng_racing_namespace, lambda ctx: eng_nsstress(ctx)],
     rule="random control-plane scripts over 2 projects x 3 topics x 4 subscriptions with deletions, re-creations, "
          "cross-project and malformed names, interleaved with data-plane calls; racing-namespace: two or three clients "
          "that each do create-then-get or delete-then-get on ONE name, started without letting the runtime settle "
@@ -842,7 +890,8 @@ reg("C10", [lambda ctx: eng_control_enum(ctx), eng_control_random(M.mon_namespac
 
 reg("C11", [lambda ctx: eng_control_enum(ctx), eng_control_random(M.mon_namespace, {"DT", "DS"}, always=True),
             eng_data_random(M.mon_namespace, {"DS", "DT"}, relevant=CTL_OPS | DATA_OPS, tag="data-random", always=True),
-            lambda ctx: eng_create_delete_race(ctx), lambda ctx: eng_racestress(ctx), lambda ctx: eng_abandon(ctx)],
+            lambda ctx: eng_create_delete_race(ctx), lambda ctx: eng_racestress(ctx), lambda ctx: eng_abandon(ctx),
+            lambda ctx: eng_nsstress(ctx)],
     rule="random scripts deleting and re-creating topics and subscriptions with publishes and pulls in between; "
          "ListTopicSubscriptions / GetSubscription / STATS after deletions. non-trivial = a successful delete",
     monitor=M.mon_namespace, title="Deletion keeps topics and subscriptions consistent with each other", design_ref="7/C11",
@@ -1435,7 +1484,7 @@ reg("C16", [eng_abandon, eng_burst, lambda ctx: eng_create_delete_race(ctx), lam
                "(deltio_suspension_points_as_modelled), not proved semantically.",
     generated=[("lock-discipline", lockgate.lock_gate)])
 
-reg("C07", [eng_burst, eng_abandon, eng_pull_limit, eng_pushstress, eng_deletestress],
+reg("C07", [eng_burst, eng_abandon, eng_pull_limit, eng_pushstress, eng_deletestress, eng_nsstress],
     rule="burst: 17-70 calls (Get/Pull/Ack/List, one or two DeleteSubscription, one or two Publish, sometimes DeleteTopic) "
          "started without letting the runtime settle, seeded select!/scheduling order; after settling every call must "
          "have an answer and the server must still answer Get/Publish/Pull/List (mon_no_hang on every case; the harness "
